@@ -14,7 +14,8 @@
    NewFieldMask can build it), every schema, every well-typed value. *)
 From Coq Require Import List ZArith Bool Lia.
 From Verif Require Import Base.Bytes Base.BE Wire.TType Wire.WVal Wire.Codec Wire.CodecFacts
-  Wire.Schema Wire.Value Wire.Std Wire.StdFacts Wire.Masked Wire.MaskedFacts.
+  Wire.Schema Wire.Value Wire.Std Wire.StdFacts Wire.Masked Wire.MaskedFacts
+  Wire.MaskedPathSet Wire.MaskedRead Wire.MaskedReadFacts Wire.MaskedHalfway Wire.MaskedHalfwayFacts.
 From Verif Require Mask.Path Mask.Desc Mask.Trie Mask.Spec.
 Import ListNotations.
 Open Scope Z_scope.
@@ -185,7 +186,140 @@ Theorem C13_submask_field : forall cfg e m s f x,
 Proof. exact submask_field. Qed.
 Print Assumptions C13_submask_field.
 
+(* ---- end to end: masks built by NewFieldMask from a path list of C14's domain ----
+
+   in_mask_domain e s black strs ps gs: the path strings strs are the renderings of the syntax
+   trees ps, which are grammatical and typed against the descriptor of struct s (elaboration gs)
+   and conflict free; black lists have no path ending with a star.  C14's build_sound
+   (Mask/C14Facts.v) supplies "the mask answers as the path set does"; no premise about the mask
+   is left. *)
+
+(* for every schema, well-typed value and in-domain path list: NewFieldMask succeeds, Write under
+   the mask succeeds, and the bytes (followed by anything) decode, for a plain peer reading into a
+   fresh object, to the value restricted to the path SET *)
+Theorem C13_masked_write_end_to_end : forall cfg e s black strs ps gs v,
+  pinned cfg = false -> wf_env e = true -> find_struct e (s_name s) = Some s -> wt e s v = true ->
+  (zero_required cfg = true -> zero_okb e = true) ->
+  in_mask_domain e s black strs ps gs ->
+  exists m bs, mask_for e s black strs = Mask.Trie.Ok m /\
+    write_bytes_masked cfg (Some m) e s v = Ok bs /\
+    forall rest, read_bytes e s (new_struct e s) (bs ++ rest)%list
+                 = Ok (restrict_ps black (wmode cfg) e (Mask.Spec.path_set gs) (TRef (s_name s)) v).
+Proof. exact masked_write_end_to_end. Qed.
+Print Assumptions C13_masked_write_end_to_end.
+
+Theorem C13_masked_read_end_to_end : forall cfg e s black strs ps gs v,
+  wf_env e = true -> find_struct e (s_name s) = Some s -> wt e s v = true ->
+  in_mask_domain e s black strs ps gs ->
+  exists m bs, mask_for e s black strs = Mask.Trie.Ok m /\
+    write_bytes e s v = Ok bs /\
+    forall rest, read_bytes_masked cfg (Some m) e s (new_struct e s) (bs ++ rest)%list
+                 = Ok (restrict_ps black RqDrop e (Mask.Spec.path_set gs) (TRef (s_name s)) v).
+Proof. exact masked_read_end_to_end. Qed.
+Print Assumptions C13_masked_read_end_to_end.
+
+Theorem C13_restrict_built_pathset : forall e s black strs ps gs rq t v,
+  in_mask_domain e s black strs ps gs ->
+  exists m, mask_for e s black strs = Mask.Trie.Ok m /\
+            restrict_mask rq e (Some m) t v = restrict_ps black rq e (Mask.Spec.path_set gs) t v.
+Proof. exact restrict_built_pathset. Qed.
+Print Assumptions C13_restrict_built_pathset.
+
+(* ---- Read under a mask on ARBITRARY wire input ----
+
+   For any bytes that the plain code reads into a fresh object (unknown fields, duplicates, any
+   field order, trailing bytes), Read under ANY mask succeeds as well - the rest is skipped without
+   error, filtered required fields are not reported missing - and stores exactly what a plain
+   reader with no field required reads from the message restricted to the mask (filter_w). *)
+Theorem C13_masked_read_any_bytes : forall cfg m e s bs v0,
+  find_struct e (s_name s) = Some s ->
+  read_bytes e s (new_struct e s) bs = Ok v0 ->
+  exists v w rest, dec_struct bs = Some (w, rest) /\
+    read_bytes_masked cfg m e s (new_struct e s) bs = Ok v /\
+    read_new (relax e) (relax_s s) (filter_w_mask e m (TRef (s_name s)) w) = Ok v.
+Proof. exact masked_read_any_bytes. Qed.
+Print Assumptions C13_masked_read_any_bytes.
+
+(* the two halves for every wire value, every type and every selector *)
+Theorem C13_masked_read_total : forall e w t v, from_w e t w = Ok v ->
+  forall m, exists v', from_wm_mask e m t w = Ok v'.
+Proof. intros e w t v H m. exact (from_wm_total (option mask) mquery e w t v H m). Qed.
+Print Assumptions C13_masked_read_total.
+
+Theorem C13_masked_read_filter : forall e w t m v, from_wm_mask e m t w = Ok v ->
+  from_w (relax e) t (filter_w_mask e m t w) = Ok v.
+Proof. intros e w t m v H. exact (from_wm_filter (option mask) mquery None mquery_nil e w t m v H). Qed.
+Print Assumptions C13_masked_read_filter.
+
+(* why the specification is the restricted MESSAGE and not the restriction of the value a plain Read
+   yields: a field that is absent from the message keeps its start value whole *)
+Definition w_D : sschema :=
+  mkstruct (B "a.D") KStruct [mkfield 1 (B "l") Default (TList TI32) (Some (LList [LInt 1; LInt 2; LInt 3])) false].
+Definition w_ED : env := mkenv [w_D] [].
+
+Theorem C13_restrict_of_plain_read_refuted :
+  exists m v v', mask_for w_ED w_D false [B "$.l[0]"] = Mask.Trie.Ok m /\
+    read_new w_ED w_D (WStruct []) = Ok v /\
+    read_new_masked (mkcfg false false false) (Some m) w_ED w_D (WStruct []) = Ok v' /\
+    v' = VStruct [(1, VList [VInt 1; VInt 2; VInt 3])] /\
+    restrict_mask RqDrop w_ED (Some m) (TRef (s_name w_D)) v = VStruct [(1, VList [VInt 1])].
+Proof.
+  eexists. eexists. eexists. split; [vm_compute; reflexivity|]. split; [vm_compute; reflexivity|].
+  split; [vm_compute; reflexivity|]. split; vm_compute; reflexivity.
+Qed.
+Print Assumptions C13_restrict_of_plain_read_refuted.
+
+(* ---- field_mask_halfway on objects that carry sub masks ----
+
+   second_write cfg m1 m2: x.Set_FieldMask(m1); x.Write; x.Set_FieldMask(m2); x.Write on a fresh x -
+   the second Write (Wire/MaskedHalfway.v; compared with the real code on every run). *)
+
+(* default code: the second Write is a Write under m2, whatever came before *)
+Theorem C13_second_write_default : forall cfg m1 m2 e s v, halfway cfg = false ->
+  second_write cfg m1 m2 e s v = to_wire_masked cfg m2 e s v.
+Proof. exact second_write_default. Qed.
+Print Assumptions C13_second_write_default.
+
+(* halfway, fresh sub objects (first Write under the nil mask, or none): as the default code *)
+Theorem C13_second_write_after_nil : forall cfg m2 e s fs, find_struct e (s_name s) = Some s ->
+  second_write cfg None m2 e s (VStruct fs) = to_wire_masked cfg m2 e s (VStruct fs).
+Proof. exact second_write_after_nil. Qed.
+Print Assumptions C13_second_write_after_nil.
+
+Theorem C13_to_wm_again_fresh : forall cfg e s2 t v, to_wm_again cfg e None s2 t v = to_wm_mask cfg e s2 t v.
+Proof. exact to_wm_again_fresh. Qed.
+Print Assumptions C13_to_wm_again_fresh.
+
+(* halfway, known finding C13-halfway-stale-submask: after a Write under $.li[0].x the nil mask does
+   NOT behave like code generated without the option: li[0] is still written with x only *)
+Definition w_In : sschema :=
+  mkstruct (B "a.In") KStruct [mkfield 1 (B "x") Default TI32 None false; mkfield 2 (B "y") Default TI32 None false].
+Definition w_H : sschema := mkstruct (B "a.H") KStruct [mkfield 1 (B "li") Default (TList (TRef (B "a.In"))) None false].
+Definition w_EH : env := mkenv [w_In; w_H] [].
+Definition w_vH : value :=
+  VStruct [(1, VList [VStruct [(1, VInt 7); (2, VInt 8)]; VStruct [(1, VInt 9); (2, VInt 10)]])].
+Definition w_halfway : mcfg := mkcfg true false false.
+
+Theorem C13_halfway_nil_mask_refuted :
+  exists m1 r w, mask_for w_EH w_H false [B "$.li[0].x"] = Mask.Trie.Ok m1 /\
+    second_write w_halfway (Some m1) None w_EH w_H w_vH = Ok r /\
+    to_wire w_EH w_H w_vH = Ok w /\
+    cook r = WStruct [(T_LIST, 1, WList T_STRUCT
+                         [WStruct [(T_I32, 1, WI32 7)];
+                          WStruct [(T_I32, 1, WI32 9); (T_I32, 2, WI32 10)]])] /\
+    cook r <> w.
+Proof.
+  eexists. eexists. eexists. split; [vm_compute; reflexivity|]. split; [vm_compute; reflexivity|].
+  split; [vm_compute; reflexivity|]. split; [vm_compute; reflexivity|]. vm_compute. discriminate.
+Qed.
+Print Assumptions C13_halfway_nil_mask_refuted.
+
 (* ---- the hypotheses are satisfiable ---- *)
+
+Example C13_mask_domain_inhabited :
+  exists gs, in_mask_domain w_E w_S false [B "$.l[3]"] [[Mask.Spec.PName (B "l"); Mask.Spec.PIdx [3]]] gs.
+Proof. eexists. unfold in_mask_domain. repeat split; vm_compute; reflexivity. Qed.
+
 
 Example C13_domain_inhabited :
   wf_env w_E = true /\ find_struct w_E (s_name w_S) = Some w_S /\ wt w_E w_S w_v = true /\ zero_okb w_E = true.
